@@ -502,7 +502,7 @@ def build_plot(q, np, case, p=None, info=None, lo=None, hi=None):
     history) and the plot's switches are left alone."""
     from qexpy.plotting.plotting import Plot
     step = p is not None
-    p = p if step else Plot()
+    p = p if step else (ModulePlot() if case.get("via_module") else Plot())
     info = info if step else []
     lo, hi = (lo, hi) if step else (0, case.get("n0", len(case["objs"])))
     datasets = {}
@@ -1022,6 +1022,8 @@ def gen_history(rng, kinds=None):
             i += 1
         i += 1
     case["objs"] = objs
+    # the plot is created and rendered through the module-level functions (plot / hist / savefig)
+    case["via_module"] = rng.random() < 0.3 and not (objs[0]["t"] == "fit" and objs[0]["via"] == "plot.fit")
     if rng.random() < 0.15:
         return case                                   # rendered once
     n = len(objs)
@@ -1059,7 +1061,8 @@ def gen_history(rng, kinds=None):
 def describe_history(case):
     """the whole history in words: initial objects, each step, for replay files"""
     sts = states(case)
-    out = ["render 1: " + describe(sts[0])]
+    out = ["render 1: " + ("[via qexpy.plotting.plot/hist/savefig] " if case.get("via_module") else "")
+           + describe(sts[0])]
     n = case.get("n0", len(case["objs"]))
     for k, step in enumerate(case.get("steps", [])):
         added = {"objs": case["objs"][n:n + step.get("add", 0)], "errorBars": sts[k + 1]["errorBars"],
@@ -1077,3 +1080,37 @@ def legend_label(o):
     if o["t"] == "dataset":
         return o.get("label") or o.get("name") or "XY Dataset"
     return o.get("label") or ""
+
+
+class ModulePlot:
+    """the Plot is created by the module-level function qexpy.plotting.plot / hist with the first
+    object (as in the documentation) and rendered through the module-level savefig, which draws
+    the buffered (latest) plot; everything else goes to the Plot those functions returned"""
+
+    def __init__(self):
+        object.__setattr__(self, "_real", None)
+
+    def plot(self, *args, **kwargs):
+        import qexpy.plotting as qplt
+        if self._real is None:
+            object.__setattr__(self, "_real", qplt.plot(*args, **kwargs))
+            return None
+        return self._real.plot(*args, **kwargs)
+
+    def hist(self, *args, **kwargs):
+        import qexpy.plotting as qplt
+        if self._real is None:
+            n, edges, real = qplt.hist(*args, **kwargs)
+            object.__setattr__(self, "_real", real)
+            return n, edges
+        return self._real.hist(*args, **kwargs)
+
+    def savefig(self, filename, **kwargs):
+        import qexpy.plotting as qplt
+        return qplt.savefig(filename, **kwargs)
+
+    def __getattr__(self, name):
+        return getattr(object.__getattribute__(self, "_real"), name)
+
+    def __setattr__(self, name, value):
+        setattr(self._real, name, value)
